@@ -72,8 +72,10 @@ func validateRun(cmd *cobra.Command, args []string) error {
 		return fmt.Errorf("no input provided: specify file paths or pipe SQL via stdin")
 	}
 
-	// If single argument that looks like inline SQL (not a file), validate it directly
-	if len(args) == 1 {
+	// If single argument that looks like inline SQL (not a file), validate it directly.
+	// The fast path has no strict mode: under --strict the regular validator below
+	// handles the inline SQL (it accepts direct SQL input as well as file paths).
+	if len(args) == 1 && !validateStrict {
 		if _, err := os.Stat(args[0]); err != nil && looksLikeSQL(args[0]) {
 			return validateInlineSQL(cmd, args[0])
 		}
